@@ -1,6 +1,7 @@
 package main
 
 import (
+	"sort"
 	"fmt"
 	"math"
 	"strconv"
@@ -431,8 +432,53 @@ func propHostObjects(c *Ctx) {
 	}
 }
 
+// equality is symmetric and never fails, also for arrays that hold nil element pointers or typed-nil payloads
+func propEqualsSymmetry(c *Ctx) {
+	one := func() *variants.Variant { return variants.VariantFromInteger(1) }
+	mk := map[string]func() *variants.Variant{
+		"[1,nil]":       func() *variants.Variant { return variants.VariantFromArray([]*variants.Variant{one(), nil}) },
+		"[1,null]":      func() *variants.Variant { return variants.VariantFromArray([]*variants.Variant{one(), variants.EmptyVariant()}) },
+		"[nil]":         func() *variants.Variant { return variants.VariantFromArray([]*variants.Variant{nil}) },
+		"[null]":        func() *variants.Variant { return variants.VariantFromArray([]*variants.Variant{variants.EmptyVariant()}) },
+		"[[1,nil]]":     func() *variants.Variant { return variants.VariantFromArray([]*variants.Variant{variants.VariantFromArray([]*variants.Variant{one(), nil})}) },
+		"[[1,null]]":    func() *variants.Variant { return variants.VariantFromArray([]*variants.Variant{variants.VariantFromArray([]*variants.Variant{one(), variants.EmptyVariant()})}) },
+		"[]":            func() *variants.Variant { return variants.VariantFromArray(nil) },
+		"null":          variants.EmptyVariant,
+		"[1]":           func() *variants.Variant { return variants.VariantFromArray([]*variants.Variant{one()}) },
+		"[1,nil,nil]":   func() *variants.Variant { return variants.VariantFromArray([]*variants.Variant{one(), nil, nil}) },
+		"[1,null,nil]":  func() *variants.Variant { return variants.VariantFromArray([]*variants.Variant{one(), variants.EmptyVariant(), nil}) },
+	}
+	var names []string
+	for k := range mk {
+		names = append(names, k)
+	}
+	sort.Strings(names)
+	for _, x := range names {
+		for _, y := range names {
+			op := "eqsym " + strRunes(x) + " " + strRunes(y)
+			c.record(op, x != y)
+			c.count("equality-symmetry")
+			note := ""
+			st := safeCall(func() string {
+				a, b := mk[x](), mk[y]()
+				ab, ba := a.Equals(b), b.Equals(a)
+				if ab != ba {
+					note = fmt.Sprintf("%s.Equals(%s) = %v but %s.Equals(%s) = %v", x, y, ab, y, x, ba)
+				} else if x == y && !ab {
+					note = fmt.Sprintf("two variants built the same way (%s) are not equal", x)
+				}
+				return ""
+			})
+			if st != "" || note != "" {
+				c.fail(Failure{Kind: "oracle", Op: op, Impl: st, Note: note + st})
+			}
+		}
+	}
+}
+
 func propC20(c *Ctx) {
 	propScaleVariants(c)
+	propEqualsSymmetry(c)
 	propOwnVariants(c)
 	propHostObjects(c)
 	scalars := []string{"n", "i0", "i-5", "i9223372036854775807", "l7", "l-9223372036854775808", "f3fc00000", "fNaN", "f80000000", "f00000000",
@@ -547,6 +593,10 @@ func propC20(c *Ctx) {
 }
 
 func replayC20(c *Ctx, op string) {
+	if strings.HasPrefix(op, "eqsym ") {
+		propEqualsSymmetry(c)
+		return
+	}
 	if strings.HasPrefix(op, "hostobj ") {
 		propHostObjects(c)
 		return
